@@ -347,6 +347,8 @@ func run(ci any, r *mon.Rec) {
 		}
 		for _, k := range ks {
 			j.schedule([]xport.ReadStep{{N: k}, {N: L - k, Err: "eof"}}, mon.Mix(80, uint64(k)))
+			// bytes handed over together with the timeout that ended the read (io.Reader allows n > 0 with an error)
+			j.schedule([]xport.ReadStep{{N: k, Err: "deadline"}, {N: L - k}}, mon.Mix(89, uint64(k)))
 			j.schedule([]xport.ReadStep{{N: k}, {Err: "deadline-wrapped"}, {N: L - k}}, mon.Mix(81, uint64(k)))
 			j.schedule([]xport.ReadStep{{Err: "deadline-wrapped"}, {N: k}, {Err: "deadline-wrapped"}, {Err: "deadline"}, {N: L - k}}, mon.Mix(82, uint64(k)))
 			if c.Client == clientx.Serial {
